@@ -2127,6 +2127,17 @@ static void buildOrthogonalNudgingSegments(Router *router,
                     indexHigh = i - 1;
                 }
 
+                if ((*curr)->hasFixedRoute())
+                {
+                    // The user has specified this route, so none of its
+                    // segments may be shifted.  They still take part in
+                    // the nudging as fixed segments, so that other
+                    // connectors get moved away from them.
+                    segmentList.push_back(new NudgingShiftSegment(
+                            *curr, indexLow, indexHigh, dim));
+                    continue;
+                }
+
                 // Find the checkpoints on the current segment and the
                 // checkpoints on the adjoining segments that aren't on
                 // the corner (hence the +1 and -1 modifiers).
